@@ -433,6 +433,20 @@ func runWrite(c writeCase) (f *vh.Failure) {
 	if faulty {
 		vh.NonTrivial(fmt.Sprint(c))
 		vh.Label("write-fault")
+		// only that one write failed (a transient fault): the application sends its request
+		// again on the same channel - the call returns (it is not left waiting for anything the
+		// failed call kept) and, the transport being fine again, succeeds
+		res := make(chan error, 1)
+		go func() { res <- ch.SendPackage(ctx, &tds.LanguagePackage{Cmd: "select 1"}) }()
+		select {
+		case err := <-res:
+			if err != nil {
+				return vh.Failf("C14/send-after-write-fault", "request of %d packets, write %d failed once (short=%v err=%v): the next SendPackage on the channel returned %v", npackets, c.FailAt, c.Short, c.WithErr, err)
+			}
+		case <-time.After(3 * time.Second):
+			return vh.Failf("C14/blocks-after-write-fault", "request of %d packets, write %d failed once (short=%v err=%v): the next SendPackage on the channel did not return within 3 s", npackets, c.FailAt, c.Short, c.WithErr)
+		}
+		vh.Label("write-fault:next-send")
 	}
 	return nil
 }
